@@ -76,8 +76,8 @@ func run(c *vh.Ctx) error {
 	nFirst := len(families())
 	for fi, fam := range fams {
 		coqEvery = 1
-		if fi >= nFirst && !c.Thorough() {
-			coqEvery = 4
+		if fi >= nFirst {
+			coqEvery = c.Pick(4, 3)
 		}
 		done := map[uint64]bool{}
 		exercised := map[uint64]bool{}
